@@ -63,6 +63,8 @@ func checkC05(c *Ctx, r *Report) {
 	separatorCount(c, r, "C05.R1.separator-count")
 	tablesInStep(c, r, "C05.R2.tables-in-step")
 	serialWidth(c, r, "C05.R6.print-width")
+	tokenGrowth(c, r, "C05.R3.token-growth")
+	tablesMirrored(c, r, "C05.R2.tables-mirrored")
 }
 
 // c05R5: numeric limit agreement: the TTL parser accepts exactly the range the 32-bit header field (and its printer) has.
